@@ -1229,6 +1229,251 @@ def p_final_vec(p, root_name):
     return v
 
 
+def unit_builder_chains(eng, tier, prop):
+    """C02(b) / C03 / C04 / C12: every quantifier-chain shape up to S segments, executed on the MIR of the builder methods
+    with symbolic repeat counts: responder i starts at sum of the earlier counts; response kind and the single-use vs
+    repeatable conversion per segment; accumulated expectation (minimum, exactness); implicit once for unquantified
+    ordered clauses and for `returns(v)` left unquantified."""
+    import itertools as it
+    S = 3 if tier == "thorough" else 2
+    u = Unit(eng, "builder-chains", ["DefineResponse::*", "DefineMultipleResponses::*", "QuantifyReturnValue::{once,n_times,at_least_times,deconstruct,drop}",
+                                      "Quantify::{once,n_times,at_least_times,deconstruct}", "QuantifiedResponse::{then,deconstruct}", "DynBuilderWrapper::{push_responder,push_returner_result,quantify,steal,into_owned}",
+                                      "DynCallPatternBuilder::new", "CallCountExpectation::add_to_minimum"],
+             f"all chain shapes with <= {S} segments over 3 clause starts (some_call, next_call, each_call) x response kinds x quantifiers; repeat counts symbolic (all 2^64 values, overflow = panic outcome)")
+    eng.run_drop_impls.add("QuantifyReturnValue")
+
+    def fn_by(short, first_param_prefix):
+        c = [f for f in eng.fns if f.short == short and f.module.startswith(("build::", "dyn_builder::")) and f.params and (f.params[0][1] == first_param_prefix or f.params[0][1].startswith(first_param_prefix + "<"))]
+        if len(c) != 1:
+            raise KeyError(f"{short}({first_param_prefix}..): {len(c)} candidates")
+        return c[0]
+    EX, AL, ALP = (eng.variant_index("Exactness", v) for v in ("Exact", "AtLeast", "AtLeastPlusOne"))
+    IN_ORDER = eng.variant_index("PatternMatchMode", "InOrder")
+    ANY = eng.variant_index("PatternMatchMode", "InAnyOrder")
+    new_b = fn_by("new", "PatternMatchMode")
+    RESP = {"Return": eng.variant_index("DynResponder", "Return"), "Answer": eng.variant_index("DynResponder", "Answer"),
+            "ApplyDefaultImpl": eng.variant_index("DynResponder", "ApplyDefaultImpl"), "Unmock": eng.variant_index("DynResponder", "Unmock"),
+            "Panic": eng.variant_index("DynResponder", "Panic")}
+    resp_ops = {"returns": "Return", "returns_default": "Return", "answers": "Answer", "answers_arc": "Answer", "panics": "Panic",
+                "applies_unmocked": "Unmock", "applies_default_impl": "ApplyDefaultImpl"}
+    conv_n = [0]
+
+    hs = []
+
+    def add(rx, h):
+        it_ = (re.compile(rx), h)
+        eng.handlers.insert(0, it_)
+        hs.append(it_)
+
+    def h_conv(call):
+        meth = call.norm.split("::")[-1]
+        a = Adt("StoredReturn", None)
+        a.tag = ("stored", meth)
+        call.m.event("convert", meth)
+        return eng.mk_enum("Result", "Ok", a)
+    add(r"^<T as (output::)?IntoReturn(Once)?>::into_return(_once)?$", h_conv)
+
+    def h_default(call):
+        a = Adt("StoredReturn", None)
+        a.tag = ("stored", "return_default")
+        call.m.event("convert", "return_default")
+        return a
+    add(r"ReturnDefault>::return_default$", h_default)
+
+    def h_into_returner(call):
+        a = Adt("Returner", None)
+        v = call.argv[0]
+        a.tag = ("returner",) + (v.tag[1:] if isinstance(v, Adt) and v.tag else ("?",))
+        return a
+    add(r"IntoReturner>::into_returner$", h_into_returner)
+
+    def h_push(call):
+        call.m.user["pushed"] = Cell(call.argv[2], None, "pushed_builder")
+        call.m.event("sink_push")
+        return eng.mk_enum("Result", "Ok", UNIT)
+    add(r"^<dyn (term::)?Sink as (term::)?Sink>::push$", h_push)
+
+    starts = [("some_call", "DefineResponse", ANY), ("next_call", "DefineResponse", IN_ORDER), ("each_call", "DefineMultipleResponses", ANY)]
+    first_resps = list(resp_ops)
+    later_resps = list(resp_ops) if tier == "thorough" else ["returns", "panics", "applies_unmocked", "answers"]
+    quants_mid = ["once", "n_times"]                   # then() needs an exact count
+    checked = 0
+    kinds_seen = set()
+    try:
+        with opaque_calls(eng, [r"^<F as MockFn>::info$"]):
+            for start, ty0, mode in starts:
+                for S_ in range(1, S + 1):
+                    for resps in it.product(*([first_resps] + [later_resps] * (S_ - 1))):
+                        last_quants = ["once", "n_times", None] + (["at_least_times"] if mode == ANY else [])
+                        for quants in it.product(*([quants_mid] * (S_ - 1) + [last_quants])):
+                            chain = list(zip(resps, quants))
+                            ok = run_chain(eng, u, fn_by, new_b, start, ty0, mode, chain, resp_ops, RESP, (EX, AL, ALP), IN_ORDER)
+                            checked += 1
+                            kinds_seen.add((start, len(chain), quants[-1]))
+        u.witness(f"{checked} chain shapes executed", [z3.BoolVal(checked > 50)])
+    finally:
+        for it_ in hs:
+            eng.handlers.remove(it_)
+        eng.run_drop_impls.discard("QuantifyReturnValue")
+    u.samples = checked
+    return u.result()
+
+
+def run_chain(eng, u, fn_by, new_b, start, ty0, mode, chain, resp_ops, RESP, EXS, IN_ORDER):
+    EX, AL, ALP = EXS
+    label = f"{start}:" + "->".join(f"{r}.{q or 'unquantified'}" for r, q in chain)
+    # ---- build the initial typed builder object: DefineResponse / DefineMultipleResponses { wrapper: Owned(new(mode, matcher)), .. }
+    m = eng.start(new_b, [Adt("PatternMatchMode", mode), Adt("DynInputMatcher", None)])
+    paths = eng.explore(m)
+    if len(paths) != 1 or paths[0].outcome[0] != "return":
+        u.errors.append(f"{label}: DynCallPatternBuilder::new: {[p.outcome for p in paths][:2]}")
+        return False
+    m = paths[0]
+    inner = m.outcome[1]
+    wrapper = eng.mk_enum("DynBuilderWrapper", "Owned", inner)
+    obj = Adt(ty0, None)
+    obj.fields[(None, field_index(eng, ty0, "wrapper"))] = Cell(wrapper, None, "wrapper")
+    obj.fields[(None, field_index(eng, ty0, "ordering"))] = Cell(Adt("O", None), None, "ordering")
+    obj.fields[(None, field_index(eng, ty0, "mock_fn"))] = Cell(Adt("PhantomData", None), None, "mock_fn")
+    cur_ty = ty0
+    # ---- spec state
+    n_syms = []
+    idx = z3.BitVecVal(0, 64)
+    minimum = z3.BitVecVal(0, 64)
+    exact = AL
+    exp_resp = []          # (index expr, kind, conversion or None)
+    pend_return = False    # DefineResponse::returns stores the value until it is quantified
+    noov = []
+
+    def call(fn, args):
+        nonlocal m
+        m.outcome = None
+        m.visits = {}
+        eng.start(fn, args, m)
+        ps = eng.explore(m)
+        good = [p for p in ps if p.outcome[0] == "return"]
+        pan = [p for p in ps if p.outcome[0] == "panic"]
+        bad = [p for p in ps if p.outcome[0] in ("unknown", "bound")]
+        for p in bad:
+            u.errors.append(f"{label}: {fn.short}: {p.outcome}")
+        for p in pan:
+            # the only legitimate panic is arithmetic overflow of the running sums
+            u.must_be_unsat(f"C02.builder-panics-only-on-overflow", list(p.pc) + noov, {"chain": label, "site": p.outcome[1]})
+        if len(good) != 1:
+            if not bad:
+                u.must_be_true("C02.builder-step-is-deterministic", False, {"chain": label, "fn": fn.short, "returns": len(good)})
+            return None
+        m = good[0]
+        return m.outcome[1]
+
+    for si, (resp, quant) in enumerate(chain):
+        kind = resp_ops[resp]
+        # response op
+        f = fn_by(resp, cur_ty)
+        args = [obj]
+        if resp == "returns":
+            v = Adt("T", None)
+            v.tag = ("value", si)
+            args.append(v)
+        elif resp in ("answers", "answers_arc", "panics"):
+            args.append(Opaque("?", f"arg{si}"))
+        obj = call(f, args)
+        if obj is None:
+            return False
+        if resp == "returns" and cur_ty == "DefineResponse":
+            cur_ty = "QuantifyReturnValue"
+            pend_return = True
+        else:
+            cur_ty = "Quantify"
+            exp_resp.append((idx, kind, {"returns": "into_return", "returns_default": "return_default"}.get(resp)))
+        # quantifier
+        if quant is not None:
+            f = fn_by(quant, cur_ty)
+            args = [obj]
+            n = None
+            if quant != "once":
+                n = eng.named(f"n{si}", 64)
+                args.append(Int(n, 64, False))
+            else:
+                n = z3.BitVecVal(1, 64)
+            if pend_return:
+                exp_resp.append((idx, "Return", "into_return_once" if quant == "once" else "into_return"))
+                pend_return = False
+            noov.append(z3.BVAddNoOverflow(minimum, n, False))
+            noov.append(z3.BVAddNoOverflow(idx, n, False))
+            minimum = minimum + n
+            idx = idx + n
+            exact = AL if quant == "at_least_times" else EX
+            obj = call(f, args)
+            if obj is None:
+                return False
+            cur_ty = "QuantifiedResponse"
+            if si + 1 < len(chain):
+                obj = call(fn_by("then", "QuantifiedResponse"), [obj])
+                if obj is None:
+                    return False
+                cur_ty = "DefineMultipleResponses"
+                exact = ALP
+    # ---- deconstruct (what Unimock::new does with the clause)
+    if cur_ty == "QuantifyReturnValue":
+        exp_resp.append((idx, "Return", "into_return_once"))
+        noov += [z3.BVAddNoOverflow(minimum, z3.BitVecVal(1, 64), False), z3.BVAddNoOverflow(idx, z3.BitVecVal(1, 64), False)]
+        minimum, idx, exact = minimum + 1, idx + 1, EX
+    elif cur_ty == "Quantify" and mode == IN_ORDER:
+        noov += [z3.BVAddNoOverflow(minimum, z3.BitVecVal(1, 64), False), z3.BVAddNoOverflow(idx, z3.BitVecVal(1, 64), False)]
+        minimum, idx, exact = minimum + 1, idx + 1, EX
+    r = call(fn_by("deconstruct", cur_ty), [obj, Ref(Cell(Opaque("dyn Sink", "sink"), None, "sink"))])
+    if r is None:
+        return False
+    pushed = m.user.get("pushed")
+    u.must_be_true("C14.clause-pushes-exactly-one-pattern", pushed is not None and len([e for e in m.trace if e[0] == "sink_push"]) == 1, {"chain": label})
+    if pushed is None:
+        return False
+    b = pushed.val
+    ctx = {"chain": label}
+    resp_v = b.fields[(None, field_index(eng, "DynCallPatternBuilder", "responders"))].val
+    ce = b.fields[(None, field_index(eng, "DynCallPatternBuilder", "count_expectation"))].val
+    got = []
+    for c in resp_v.items:
+        r_ = c.val
+        ri = r_.fields[(None, field_index(eng, "DynCallOrderResponder", "response_index"))].val
+        rr = r_.fields[(None, field_index(eng, "DynCallOrderResponder", "responder"))].val
+        got.append((ri, rr))
+    u.must_be_true("C02.one-responder-per-response", len(got) == len(exp_resp), {"chain": label, "got": len(got), "want": len(exp_resp)})
+    for (ri, rr), (ei, ek, econv) in zip(got, exp_resp):
+        u.must_hold("C02.segment-starts-at-sum-of-earlier-counts", m.pc, ri.e == ei, ctx)
+        u.must_be_true("C02.response-kind-per-segment", isinstance(rr, Adt) and rr.discr == RESP[ek], {"chain": label, "got": repr(rr)[:60], "want": ek})
+        if ek == "Return" and econv:
+            # single-use vs repeatable storage (C12): follow Return(DynReturnResponder(Box<Returner(Box<tagged>)>))
+            tagv = find_tag(rr)
+            u.must_be_true("C12.single-use-vs-repeatable-conversion", tagv is not None and tagv[1] == econv, {"chain": label, "got": tagv, "want": econv})
+    gmin = ce.fields[(None, field_index(eng, "CallCountExpectation", "minimum"))].val
+    gex = ce.fields[(None, field_index(eng, "CallCountExpectation", "exactness"))].val
+    u.must_hold("C03.expected-minimum-is-sum-of-counts", m.pc, gmin.e == minimum, ctx)
+    u.must_be_true("C03.exactness-of-the-chain", isinstance(gex, Adt) and gex.discr == exact, {"chain": label, "got": getattr(gex, "discr", None), "want": exact})
+    gmode = b.fields[(None, field_index(eng, "DynCallPatternBuilder", "pattern_match_mode"))].val
+    u.must_be_true("C04.mode-of-the-clause-start", isinstance(gmode, Adt) and gmode.discr == mode, ctx)
+    if mode == IN_ORDER:
+        u.must_be_true("C04.ordered-clauses-are-exact", exact == EX, ctx)
+    return True
+
+
+def find_tag(v, depth=0):
+    """Follow boxes / single-field wrappers to the tagged stored return."""
+    if depth > 8:
+        return None
+    if isinstance(v, Adt):
+        if v.tag and v.tag[0] in ("stored", "returner"):
+            return v.tag
+        for c in v.fields.values():
+            t = find_tag(c.val, depth + 1)
+            if t:
+                return t
+    if isinstance(v, Ref):
+        return find_tag(v.cell.val, depth + 1)
+    return None
+
+
 def unit_todo(eng, tier, prop):
     u = Unit(eng, "todo", [], "")
     u.errors.append("unit not implemented yet")
@@ -1236,6 +1481,7 @@ def unit_todo(eng, tier, prop):
 
 
 UNITS = {
+    "builder_chains": unit_builder_chains,
     "assembler": unit_assembler,
     "eval_dyn": unit_eval_dyn,
     "locked_closures": unit_locked_closures,
